@@ -530,6 +530,121 @@ fn check<E: EndianParse + core::fmt::Debug>(e: E, o: &Obj, c: &mut Choice, obs: 
     Ok(())
 }
 
+/// One or two header fields of the symbol-table / dynamic / hash sections damaged: the one-pass discovery and the
+/// targeted accessors must still agree: both refuse, or both succeed with the same tables.
+fn damaged_check<E: EndianParse + core::fmt::Debug>(e: E, o: &Obj, data: &[u8], what: &str, obs: &mut Obs) -> Result<(), String> {
+    let class = class_of(o.enc);
+    let f = match open_as(e, data) {
+        Ok(f) => f,
+        Err(_) => {
+            obs.label("damaged_object_does_not_open");
+            return Ok(());
+        }
+    };
+    let shdrs = match f.section_headers() {
+        Some(t) => t,
+        None => return Ok(()),
+    };
+    let st = guard(|| f.symbol_table()).map_err(|p| format!("symbol_table panicked: {}", p))?;
+    let ds = guard(|| f.dynamic_symbol_table()).map_err(|p| format!("dynamic_symbol_table panicked: {}", p))?;
+    let dy = guard(|| f.dynamic()).map_err(|p| format!("dynamic panicked: {}", p))?;
+    let raw = |h: &SectionHeader| -> Option<&[u8]> {
+        let s = usize::try_from(h.sh_offset).ok()?;
+        let n = usize::try_from(h.sh_size).ok()?;
+        data.get(s..s.checked_add(n)?)
+    };
+    let hs = shdrs.iter().find(|h| h.sh_type == m::SHT_HASH).map(|h| raw(&h).ok_or(()).and_then(|b| SysVHashTable::new(e, class, b).map_err(|_| ())));
+    let hg = shdrs.iter().find(|h| h.sh_type == m::SHT_GNU_HASH).map(|h| raw(&h).ok_or(()).and_then(|b| GnuHashTable::new(e, class, b).map_err(|_| ())));
+    let failing: Vec<&str> = [("symbol_table()", st.is_err()), ("dynamic_symbol_table()", ds.is_err()), ("dynamic()", dy.is_err()), ("SysVHashTable::new(.hash bytes)", matches!(hs, Some(Err(())))), ("GnuHashTable::new(.gnu.hash bytes)", matches!(hg, Some(Err(()))))].iter().filter(|x| x.1).map(|x| x.0).collect();
+    let cd = guard(|| f.find_common_data()).map_err(|p| format!("find_common_data panicked: {}", p))?;
+    match (&cd, failing.is_empty()) {
+        (Ok(_), false) => return Err(format!("{}: find_common_data() succeeds although {} fail(s) on the same object", what, failing.join(", "))),
+        (Err(er), true) => return Err(format!("{}: find_common_data() fails with {} although symbol_table(), dynamic_symbol_table(), dynamic() and the hash-table constructors all succeed on the same object", what, err_name(er))),
+        (Err(_), false) => {
+            obs.label("damaged_both_refuse");
+            obs.nontrivial();
+            return Ok(());
+        }
+        (Ok(_), true) => {}
+    }
+    let cd = cd.unwrap();
+    match (&cd.symtab, &cd.symtab_strs, st.as_ref().unwrap()) {
+        (None, None, None) => {}
+        (Some(a), Some(asx), Some((b, bs))) if symtab_eq(a, b) && strtab_eq(asx, bs, 48) => {}
+        _ => return Err(format!("{}: find_common_data().symtab / symtab_strs differ from symbol_table()", what)),
+    }
+    match (&cd.dynsyms, &cd.dynsyms_strs, ds.as_ref().unwrap()) {
+        (None, None, None) => {}
+        (Some(a), Some(asx), Some((b, bs))) if symtab_eq(a, b) && strtab_eq(asx, bs, 48) => {}
+        _ => return Err(format!("{}: find_common_data().dynsyms / dynsyms_strs differ from dynamic_symbol_table()", what)),
+    }
+    match (&cd.dynamic, dy.as_ref().unwrap()) {
+        (None, None) => {}
+        (Some(a), Some(b)) if a.len() == b.len() && a.iter().zip(b.iter()).all(|(x, y)| x == y) => {}
+        _ => return Err(format!("{}: find_common_data().dynamic differs from dynamic()", what)),
+    }
+    if cd.sysv_hash.is_some() != hs.is_some() || cd.gnu_hash.is_some() != hg.is_some() {
+        return Err(format!("{}: find_common_data() hash-table presence differs from the sections present", what));
+    }
+    if let Some((syms, strs)) = ds.as_ref().unwrap() {
+        for q in o.names.iter().take(12) {
+            if let (Some(a), Some(Ok(b))) = (&cd.sysv_hash, &hs) {
+                if a.find(q, syms, strs).map_err(|_| ()) != b.find(q, syms, strs).map_err(|_| ()) {
+                    return Err(format!("{}: SysV lookup of {:?} differs between common data and the table built from the section bytes", what, String::from_utf8_lossy(q)));
+                }
+            }
+            if let (Some(a), Some(Ok(b))) = (&cd.gnu_hash, &hg) {
+                if a.find(q, syms, strs).map_err(|_| ()) != b.find(q, syms, strs).map_err(|_| ()) {
+                    return Err(format!("{}: GNU lookup of {:?} differs between common data and the table built from the section bytes", what, String::from_utf8_lossy(q)));
+                }
+            }
+        }
+    }
+    obs.label("damaged_both_accept");
+    Ok(())
+}
+
+fn oracle_damaged(case: &[u8], obs: &mut Obs) -> Result<(), String> {
+    let mut c = Choice::new(case);
+    let o = gen_obj(&mut c);
+    let enc = o.enc;
+    let spec = specs_for(enc.le)[c.below(2) as usize];
+    let kinds: Vec<usize> = o.b.shdrs.iter().enumerate().filter(|(_, h)| [m::SHT_SYMTAB, m::SHT_DYNSYM, m::SHT_DYNAMIC, m::SHT_HASH, m::SHT_GNU_HASH].contains(&h.sh_type)).map(|(i, _)| i).collect();
+    if kinds.is_empty() || !o.b.has_shdrs || o.b.shdrs.len() > 4096 {
+        obs.label("nothing_to_damage");
+        return Ok(());
+    }
+    let mut data = o.b.bytes.clone();
+    let mut what = String::new();
+    let nsec = o.b.shdrs.len() as u64;
+    let flen = data.len() as u64;
+    for _ in 0..1 + c.below(2) {
+        let i = kinds[c.idx(kinds.len())];
+        let h = &o.b.shdrs[i];
+        let right = h.sh_entsize;
+        // (field name, offset in the ELF64 / ELF32 header, width in bytes ELF64 / ELF32)
+        let (name, o64, o32, w64, w32, v): (&str, usize, usize, usize, usize, u64) = match c.below(5) {
+            0 | 1 => ("sh_entsize", 56, 36, 8, 4, *c.pick(&[0u64, 1, right.wrapping_sub(1), right + 1, if enc.c64 { 16 } else { 24 }, 8, 0xffff, 0x1_0000_0000 + right])),
+            2 => ("sh_link", 40, 24, 4, 4, *c.pick(&[nsec, nsec + 1, 0xffff_ffff, 0xffff, 0])),
+            3 => ("sh_size", 32, 20, 8, 4, *c.pick(&[flen, flen + 1, u64::MAX, 0xffff_ffff, 0, 1, 7])),
+            _ => ("sh_offset", 24, 16, 8, 4, *c.pick(&[flen, flen + 1, u64::MAX, 0xffff_fff0, flen - 1])),
+        };
+        let (fo, w) = if enc.c64 { (o64, w64) } else { (o32, w32) };
+        let at = o.b.shoff + i * m::shdr_size(enc) + fo;
+        if at + w > data.len() {
+            continue;
+        }
+        let bytes = if enc.le { v.to_le_bytes()[..w].to_vec() } else { v.to_be_bytes()[8 - w..].to_vec() };
+        data[at..at + w].copy_from_slice(&bytes);
+        what.push_str(&format!("section {} (type {:#x}) {} := {:#x}; ", i, h.sh_type, name, v));
+    }
+    let what = format!("{} {} object of {} bytes, {} sections, damaged: {}", enc.name(), SPEC_NAMES[spec as usize], data.len(), nsec, what);
+    with_endian!(spec, |e| damaged_check(e, &o, &data, &what, obs))?;
+    obs.key = fnv64(&data) ^ spec as u64;
+    obs.describe(|| json!({"case": what}));
+    Ok(())
+}
+
 fn oracle(case: &[u8], obs: &mut Obs) -> Result<(), String> {
     let mut c = Choice::new(case);
     let o = gen_obj(&mut c);
@@ -546,9 +661,9 @@ pub fn property() -> Property {
     Property {
         id: "C20",
         level: "exploration",
-        rule: "cases are generated objects with at most one section of each kind, each of .symtab(+strtab), .dynsym(+dynstr), .dynamic, .hash, .gnu.hash present or absent independently, 1..5 filler sections of types REL/RELA/NOTE/STRTAB/NOBITS/PROGBITS, sections in shuffled order (5%: no SHT_NULL entry in front; rarely 65 541+ sections so that indexes and sh_link values exceed 16 bits), names drawn from a pool of prefixes/suffixes of each other, duplicates, the empty name and a non-UTF-8 name, sh_link of the symbol tables pointing at their string table or at ANY section, PT_DYNAMIC only together with .dynamic, PT_NOTE/other segments, class x order x fixed/run-time spec. Oracle: find_common_data() fields vs symbol_table(), dynamic_symbol_table(), dynamic() (presence, every entry, strings at every offset) and vs hash tables rebuilt from section_data (every name looked up through both); section_header_by_name(n) (both parsers) = first header of a manual scan whose UTF-8 name string equals n, for every present name, prefixes, extensions, absent names and queries containing NULs that line up with adjacent string-table entries; every section handed to every typed view (strtab, rels, relas, notes; both parsers): refused iff the type differs, otherwise entries equal the encoded model / the reference walk of the raw bytes; segment_data_as_notes refused iff p_type != PT_NOTE; dynamic() via .dynamic equals dynamic() and find_common_data().dynamic of the stripped twin (e_shoff=0) via PT_DYNAMIC, both parsers. Non-trivial: >=3 kinds present, at least one wrong-type refusal and one duplicate/prefix name query; distinct by file hash.",
-        assumptions: &["only refusal (Err) is required for wrong-type views, not a particular error kind", "objects are well formed, so find_common_data and the targeted accessors are required to succeed"],
-        subs: vec![Sub::new("paths", oracle, 900, 800_000, 25_000_000).shrink(2500)],
+        rule: "cases are generated objects with at most one section of each kind, each of .symtab(+strtab), .dynsym(+dynstr), .dynamic, .hash, .gnu.hash present or absent independently, 1..5 filler sections of types REL/RELA/NOTE/STRTAB/NOBITS/PROGBITS, sections in shuffled order (5%: no SHT_NULL entry in front; rarely 65 541+ sections so that indexes and sh_link values exceed 16 bits), names drawn from a pool of prefixes/suffixes of each other, duplicates, the empty name and a non-UTF-8 name, sh_link of the symbol tables pointing at their string table or at ANY section, PT_DYNAMIC only together with .dynamic, PT_NOTE/other segments, class x order x fixed/run-time spec. Oracle: find_common_data() fields vs symbol_table(), dynamic_symbol_table(), dynamic() (presence, every entry, strings at every offset) and vs hash tables rebuilt from section_data (every name looked up through both); section_header_by_name(n) (both parsers) = first header of a manual scan whose UTF-8 name string equals n, for every present name, prefixes, extensions, absent names and queries containing NULs that line up with adjacent string-table entries; every section handed to every typed view (strtab, rels, relas, notes; both parsers): refused iff the type differs, otherwise entries equal the encoded model / the reference walk of the raw bytes; segment_data_as_notes refused iff p_type != PT_NOTE; dynamic() via .dynamic equals dynamic() and find_common_data().dynamic of the stripped twin (e_shoff=0) via PT_DYNAMIC, both parsers. Non-trivial: >=3 kinds present, at least one wrong-type refusal and one duplicate/prefix name query; distinct by file hash. Subcheck damaged: the same objects with one or two fields (sh_entsize, sh_link, sh_size, sh_offset) of the .symtab/.dynsym/.dynamic/.hash/.gnu.hash section headers overwritten with wrong values (0, off by one, the other class's size, counts, beyond EOF, 2^32+right): find_common_data() succeeds exactly when symbol_table(), dynamic_symbol_table(), dynamic() and the hash-table constructors on the raw section bytes all succeed, and then holds the same tables; non-trivial there: both refuse.",
+        assumptions: &["only refusal (Err) is required for wrong-type views, not a particular error kind", "in subcheck paths objects are well formed, so find_common_data and the targeted accessors are required to succeed; in subcheck damaged only their agreement is required"],
+        subs: vec![Sub::new("paths", oracle, 900, 800_000, 25_000_000).shrink(2500), Sub::new("damaged", oracle_damaged, 900, 150_000, 10_000_000).shrink(2500)],
         extras: vec![],
     }
 }
